@@ -375,6 +375,42 @@ func c14IssuerPairs(chk *fw.Check) int {
 // orders of {0, 1h} x provisioning order). Each instance caches by its own configuration: on the instance with
 // duration 0 every handshake asks the responder and sees a flip to revoked at once; on the 1h instance the second
 // handshake is a hit.
+// c14UnknownStatus: the responder answers "unknown" (no nextUpdate). What the checker makes of such an answer is not
+// the point here; how long it keeps it is: with default_cache_duration 0 not at all, with 2 minutes for 2 minutes.
+func c14UnknownStatus(chk *fw.Check) int {
+	p := world.Std()
+	n := 0
+	for _, dur := range []time.Duration{0, 2 * time.Minute} {
+		n++
+		dur := dur
+		seqWorld(func() {
+			net := world.NewNet()
+			status := xocsp.Unknown
+			net.Routes[c14URLA] = &world.Behaviour{Label: "ocsp", Fn: func(req *http.Request, body []byte) (int, []byte, error) {
+				r, err := xocsp.ParseRequest(body)
+				if err != nil {
+					return 400, nil, nil
+				}
+				return 200, world.BuildOCSP(world.OCSPAnswer{Status: status, Serial: r.SerialNumber, Issuer: p.CA, Signer: p.CA, ThisUpdate: vsched.Now().Add(-time.Minute)}), nil
+			}}
+			w := NewOW(false, dur, nil, net)
+			l := world.Leaf(p.CA, bi(5200), nil, []string{c14URLA})
+			ch := world.Chain(l, p.CA, p.Root)
+			w.Lookup(l, ch)
+			status = xocsp.Revoked
+			vsched.Advance(dur + time.Second)
+			before := len(net.Hits)
+			v := w.Lookup(l, ch)
+			if len(net.Hits) == before || v.String() != "REVOKED" {
+				chk.Violation(fmt.Sprintf("C14|stale-hit|unknown-status-kept-beyond-the-configured-lifetime|default=%v", dur),
+					fmt.Sprintf("default_cache_duration %v, no nextUpdate: the responder answered 'unknown', then 'revoked'; a lookup %v after the first one sent %d request(s) and reads %s", dur, dur+time.Second, len(net.Hits)-before, v), nil)
+			}
+			w.Chk.Cleanup()
+		})
+	}
+	return n
+}
+
 func c14TwoModules(chk *fw.Check) int {
 	p := world.Std()
 	n := 0
@@ -567,12 +603,18 @@ func RunC14(tier string, args []string) int {
 	}
 	samples = append(samples, map[string]interface{}{"config": "default=10m nextUpdate=absent", "history": []string{"lookup(c1,V1)", "advance(L/2)", "lookup(c1,V1)", "advance(L/2)", "flipA(c1->revoked)", "lookup(c1,V1)"}})
 	samples = append(samples, map[string]interface{}{"config": "default=10m nextUpdate=absent", "history": []string{"lookup(c1',V1)", "flipA(c1->revoked)", "lookup(c1,V2)"}})
-	pairCases := c14IssuerPairs(chk) + c14TwoModules(chk) + c14Reload(chk)
+	pairCases := c14IssuerPairs(chk) + c14TwoModules(chk) + c14Reload(chk) + c14UnknownStatus(chk)
+	// all schedules (<= 2 preemptions) of two checkers with lifetimes 1h and 0 asked about one certificate at the same
+	// moment: what the zero-duration checker holds afterwards is nothing
+	srep := exploreInProcess(chk, "C14", ocspTwoLifetimesScenario("C14"), 2)
+	fmt.Printf("  S %-40s execs=%d per-bound=%v outcomes=%v\n", srep.Scenario, srep.Executions, srep.PerBound, srep.Outcomes)
+	pairCases += srep.Executions
 	cov := fw.Coverage{
 		"states":                        total.States + pairCases,
 		"transitions":                   total.Transitions + 2*pairCases,
 		"traces_validated_against_impl": total.Transitions + pairCases,
 		"issuer_pair_histories":         pairCases,
+		"schedule_scenario":             srep,
 		"max_depth":                     total.MaxDepth,
 		"merged_transitions":            total.Pruned,
 		"per_config":                    perCfg,
